@@ -29,6 +29,8 @@ func compare(prefs compareTypePref) func(d *dataTreeNavigator, context Context, 
 			log.Debugf("rhs nil, but rhs is not")
 			return createBooleanCandidate(lhs, false), nil
 		}
+		// an alias is compared as the node it stands for
+		lhs, rhs = lhs.unwrapAlias(), rhs.unwrapAlias()
 
 		switch lhs.Kind {
 		case MappingNode:
